@@ -274,3 +274,107 @@ func TestC12(t *testing.T) {
 }
 
 func TestC12History(t *testing.T) { historyTest(t, "C12", 2) }
+
+// ---- pairs are evaluated independently ---------------------------------------
+
+type c12IndCase struct {
+	Stmt  *lib.Stmt  `json:"stmt"` // multi-pair PUT whose key expressions may mention `key`
+	Pairs []lib.Pair `json:"pairs"`
+	Query string     `json:"query"`
+}
+
+func init() {
+	registerReplay("c12ind", func(c *c12IndCase) string { m, _, _ := checkC12Ind(c); return m })
+}
+
+// checkC12Ind (metamorphic, no reference evaluator): `put p1, ..., pn` must
+// issue the same writes as the n statements `put p1`; ...; `put pn` executed
+// in order - the evaluated pairs are applied in order, so no pair may depend
+// on its neighbours.
+func checkC12Ind(c *c12IndCase) (msg string, nontrivial bool, labels []string) {
+	q := c.Stmt.Render()
+	c.Query = q
+	cfg := lib.Cfg{Mode: "batch", Batch: 32, Cache: true}
+	all := lib.NewInstr(lib.NewStore(c.Pairs))
+	res := lib.Run(q, all, len(c.Pairs), cfg)
+	if res.BuildErr != nil {
+		return "", false, []string{"rejected-by-engine"}
+	}
+	if res.Panic != "" || res.StepCap {
+		return fmt.Sprintf("statement %q: %s", q, res.Describe()), true, labels
+	}
+	one := lib.NewInstr(lib.NewStore(c.Pairs))
+	var singles []string
+	failed := false
+	for _, p := range c.Stmt.Pairs {
+		sq := (&lib.Stmt{Kind: "put", Pairs: [][2]*lib.Node{p}}).Render()
+		singles = append(singles, sq)
+		r := lib.Run(sq, one, len(c.Pairs), cfg)
+		if r.Failed() {
+			failed = true
+			break
+		}
+	}
+	if failed {
+		// some pair fails on its own: the whole statement must fail and write nothing
+		if res.ExecErr == nil {
+			return fmt.Sprintf("statement %q completes although one of its pairs fails when put on its own (%q)", q, singles[len(singles)-1]), true, labels
+		}
+		return "", false, append(labels, "failing-pair")
+	}
+	if res.ExecErr != nil {
+		return fmt.Sprintf("statement %q fails (%v) although each of its pairs can be put on its own: %q", q, res.ExecErr, singles), true, labels
+	}
+	var wa, wb []string
+	for _, cl := range all.Calls() {
+		if cl.Op == "Put" || cl.Op == "BatchPut" {
+			wa = append(wa, cl.Keys...)
+		}
+	}
+	for _, cl := range one.Calls() {
+		if cl.Op == "Put" || cl.Op == "BatchPut" {
+			wb = append(wb, cl.Keys...)
+		}
+	}
+	if fmt.Sprint(wa) != fmt.Sprint(wb) {
+		return fmt.Sprintf("statement %q writes %q, but putting its pairs one statement at a time (%q) writes %q", q, wa, singles, wb), true, labels
+	}
+	if got, want := fmt.Sprint(all.S.Pairs()), fmt.Sprint(one.S.Pairs()); got != want {
+		return fmt.Sprintf("statement %q leaves %s, its pairs put one at a time leave %s", q, got, want), true, labels
+	}
+	keyInKey := false
+	for _, p := range c.Stmt.Pairs {
+		if p[0].Has(func(x *lib.Node) bool { return x.K == "key" }) {
+			keyInKey = true
+		}
+	}
+	if keyInKey {
+		labels = append(labels, "key-inside-key-expression")
+	}
+	return "", len(c.Stmt.Pairs) >= 2, labels
+}
+
+func TestC12Independent(t *testing.T) {
+	rapid.Check(t, func(rt *rapid.T) {
+		kind := rapid.SampledFrom([]lib.StoreKind{lib.KInt, lib.KWord, lib.KCSV}).Draw(rt, "kind")
+		pairs := lib.GenStore(rt, kind, rapid.SampledFrom([]int{0, 2, 5}).Draw(rt, "n"))
+		st := lib.GenPut(rt, kind, pairs, false)
+		// PUT only forbids `value`: key expressions may mention `key` as well
+		kc := &lib.GenCtx{Kind: kind, Pairs: pairs, NoValue: true}
+		for i := range st.Pairs {
+			if rapid.IntRange(0, 2).Draw(rt, "keyInKey") == 0 {
+				st.Pairs[i][0] = lib.Bin("+", kc.GenText(rt, 1), lib.Key())
+				if rapid.Bool().Draw(rt, "keyFirst") {
+					st.Pairs[i][0] = lib.Call("upper", lib.Bin("+", lib.Key(), kc.GenText(rt, 1)))
+				}
+			}
+		}
+		c := &c12IndCase{Stmt: st, Pairs: pairs}
+		lib.Journal("C12", "c12ind", c)
+		msg, nt, labels := checkC12Ind(c)
+		lib.Stats.Case(nt, "ind|"+c.Query+fmt.Sprint(pairs), labels, func() any { return map[string]any{"query": c.Query, "prior_pairs": len(pairs)} })
+		if msg != "" {
+			fail(rt, "C12", "c12ind", msg, c)
+		}
+	})
+}
